@@ -41,9 +41,31 @@ def canon_segs(segs):
     return ';'.join(','.join(map(str, s)) for s in sorted([int(v) for v in s] for s in segs))
 
 
+def build(case):
+    """The neuron under test. With `warm`, it is DERIVED from a neuron whose cached views (graphs, segments,
+    geodesic matrix) have been read: x = (warm x0 / k) * k ... so that stale caches surviving an operation show
+    up as wrong distances on the result (k dyadic: coordinates stay exact)."""
+    x = G.to_neuron(case['rows'])
+    w = case.get('warm')
+    if w:
+        _ = x.graph; _ = x.igraph; _ = x.segments; _ = x.small_segments; _ = x.cable_length
+        k = w.get('k', 2)           # integer factor: coordinates and edge lengths stay exact integers
+        if w['how'] == 'mul':
+            x = x * k
+        elif w['how'] == 'imul':
+            x *= k
+        elif w['how'] == 'div_mul':
+            y = x / 2
+            _ = y.graph; _ = y.igraph; _ = y.segments
+            x = y * (2 * k)
+        elif w['how'] == 'add':
+            x = x + 16
+    return x
+
+
 def case_dist(ctx, case, be=None):
     rows = case['rows']
-    x = G.to_neuron(rows)
+    x = build(case)
     wire = G.wire_neuron(x, labels=False)
     ids = [r['id'] for r in rows]
     tag = f'[{be}]' if be else ''
@@ -72,7 +94,7 @@ def case_dist(ctx, case, be=None):
         ctx.oracle(ok_labels, f'geodesic_matrix: rows/columns are not labelled by node id {tag}', case, signature=sig)
         fr = '*' if from_ is None else ','.join(map(str, sorted(set(from_))))
         model = ctx.ask(f"f.geo {int(directed)} {int(weighted)} {'inf' if limit is None else limit} {fr} | {wire}")
-        ctx.corr(impl, model, f'geodesic_matrix(directed={directed}, weight={weighted}, limit={limit}, from_={"yes" if from_ else "no"}) vs definition {tag}', case, signature=sig)
+        ctx.defn(impl, model, f'geodesic_matrix(directed={directed}, weight={weighted}, limit={limit}, from_={"yes" if from_ else "no"}) vs definition {tag}', case, signature=sig)
     except Exception as e:
         ctx.oracle(False, f'geodesic_matrix raised {type(e).__name__}: {str(e)[:100]} {tag}', case, signature=sig)
     ctx.count('geo', f'd{int(directed)}w{int(weighted)}l{"y" if limit is not None else "n"}f{"y" if from_ else "n"}')
@@ -90,7 +112,7 @@ def case_dist(ctx, case, be=None):
         sig = 'dist_between/networkx/int-truncation' if be == 'networkx' else None
         try:
             d = navis.dist_between(x, a, b)
-            ctx.corr(fmt(d), want, f'dist_between({a},{b}) vs definition {tag}', case, signature=sig)
+            ctx.defn(fmt(d), want, f'dist_between({a},{b}) vs definition {tag}', case, signature=sig)
         except Exception as e:
             # unreachable pairs may raise (networkx: NetworkXNoPath)
             ctx.oracle(want == 'inf', f'dist_between({a},{b}) raised {type(e).__name__} but the distance is {want} {tag}', case)
@@ -99,7 +121,7 @@ def case_dist(ctx, case, be=None):
         try:
             d = navis.graph.dist_to_root(x, weight='weight' if w else None)
             impl = ' '.join(f'{i}={fmt(d[i])}' for i in sid)
-            ctx.corr(impl, ctx.ask(f'f.distroot {w} | {wire}'), f'dist_to_root(weight={w}) vs definition {tag}', case)
+            ctx.defn(impl, ctx.ask(f'f.distroot {w} | {wire}'), f'dist_to_root(weight={w}) vs definition {tag}', case)
         except Exception as e:
             ctx.oracle(False, f'dist_to_root raised {type(e).__name__}: {str(e)[:80]} {tag}', case)
     # --- distal_to  (a distal to b  <=>  b on a's root path)
@@ -121,14 +143,14 @@ def case_dist(ctx, case, be=None):
         ctx.oracle(False, f'distal_to raised {type(e).__name__}: {str(e)[:80]} {tag}', case)
     # --- cable length
     try:
-        ctx.corr(fmt(x.cable_length), ctx.ask('f.cable ' + wire), f'cable_length vs sum of child-parent distances {tag}', case)
+        ctx.defn(fmt(x.cable_length), ctx.ask('f.cable ' + wire), f'cable_length vs sum of child-parent distances {tag}', case)
     except Exception as e:
         ctx.oracle(False, f'cable_length raised {type(e).__name__}: {str(e)[:80]} {tag}', case)
     # --- adjacency matrix
     try:
         adj = navis.graph.skeleton_adjacency_matrix(x, sort=False)
         impl = ' '.join(f'{int(a)}>{int(b)}' for a in sorted(adj.index) for b in sorted(adj.columns) if bool(adj.loc[a, b]))
-        ctx.corr(impl, ctx.ask('f.adj ' + wire), f'skeleton_adjacency_matrix vs parent relation {tag}', case,
+        ctx.defn(impl, ctx.ask('f.adj ' + wire), f'skeleton_adjacency_matrix vs parent relation {tag}', case,
                  signature='adjacency/unsorted-ids-searchsorted')
     except Exception as e:
         ctx.oracle(False, f'skeleton_adjacency_matrix raised {type(e).__name__}: {str(e)[:80]} {tag}', case,
@@ -137,14 +159,14 @@ def case_dist(ctx, case, be=None):
 
 def case_segments(ctx, case, be=None):
     rows = case['rows']
-    x = G.to_neuron(rows)
+    x = build(case)
     wire = G.wire_neuron(x, labels=False)
     tag = f'[{be}]' if be else ''
     # small segments: unique answer
     try:
         ss = x.small_segments
         impl = canon_segs(ss)
-        ctx.corr(impl, ctx.ask('f.smallsegs ' + wire), f'small_segments vs definition {tag}', case)
+        ctx.defn(impl, ctx.ask('f.smallsegs ' + wire), f'small_segments vs definition {tag}', case)
         ok = ctx.ask(f'f.smallsegsok {wire} | {segs_wire(ss)}')
         ctx.oracle(ok == '1', f'small_segments do not partition the edges into leaf/branch -> branch/root paths with slabs in between {tag}', case)
     except Exception as e:
@@ -171,7 +193,7 @@ def case_segments(ctx, case, be=None):
         leaf_depths = [depth[i] for i in pm if i not in haschild and pm[i] >= 0]
         multi = [l for l in lens if l > 0]
         if len(set(leaf_depths)) == len(leaf_depths) and len(set(multi)) == len(multi):
-            ctx.corr(segs_wire(segs), mseg.strip(), f'segments(weighted={w}) vs greedy-longest definition (no ties) {tag}', case)
+            ctx.defn(segs_wire(segs), mseg.strip(), f'segments(weighted={w}) vs greedy-longest definition (no ties) {tag}', case)
             ctx.count('segments_unique', w)
         else:
             ctx.count('segments_ties', w)
@@ -179,7 +201,7 @@ def case_segments(ctx, case, be=None):
         if w == 1 and segs and len(segs[0]) > 1:
             try:
                 sl = navis.segment_length(x, segs[0])
-                ctx.corr(fmt(sl), str(lens[0]) if lens else '0', f'segment_length(first segment) {tag}', case)
+                ctx.defn(fmt(sl), str(lens[0]) if lens else '0', f'segment_length(first segment) {tag}', case)
             except Exception as e:
                 ctx.oracle(False, f'segment_length raised {type(e).__name__} {tag}', case)
 
@@ -197,9 +219,12 @@ def gen_cases(ctx, nf=None):
             fr = r.sample(ids, r.randint(1, len(ids)))
             if r.random() < 0.3:
                 fr = fr + fr[:1]
+        warm = None
+        if k % 3 == 1:
+            warm = dict(how=r.choice(['mul', 'imul', 'div_mul', 'add']), k=r.choice([2, 3, 4]))
         yield ('dist', dict(rows=rows, directed=r.random() < 0.5, weighted=r.random() < 0.7, limit=lim, **{'from': fr},
-                            seed=r.randrange(10 ** 9), meta=meta))
-        yield ('segments', dict(rows=rows, meta=meta))
+                            seed=r.randrange(10 ** 9), warm=warm, meta=meta))
+        yield ('segments', dict(rows=rows, warm=warm, meta=meta))
 
 
 RUNNERS = {'dist': case_dist, 'segments': case_segments}
@@ -214,9 +239,24 @@ def run(ctx, be=None):
         m = case['meta']
         ctx.count('shape', m['shape']); ctx.count('labeling', m['labeling']); ctx.count('order', m['order'])
         RUNNERS[kind](ctx, case, be)
+    if be is None:
+        # the definitions must hold whichever back-end computes them: a sample under the Python paths
+        from .backends import backend, available
+        for b in available():
+            if b == 'fastcore':
+                continue
+            with backend(b):
+                for kind, case in gen_cases(ctx, ctx.budget(25, 400)):
+                    ctx.case(dict(case, kind=kind, be=b), nontrivial=len(case['rows']) >= 3)
+                    ctx.count('backend_sample', b)
+                    RUNNERS[kind](ctx, case, b)
 
 
 def replay(ctx, rp):
     case = rp['case']
     ctx.case(case)
-    RUNNERS[case['kind']](ctx, {k: v for k, v in case.items() if k != 'kind'}, case.get('be'))
+    from .backends import backend
+    import contextlib
+    cm = backend(case['be']) if case.get('be') else contextlib.nullcontext()
+    with cm:
+        RUNNERS[case['kind']](ctx, {k: v for k, v in case.items() if k not in ('kind', 'be')}, case.get('be'))
